@@ -7,7 +7,7 @@ From Coq Require Import List String Ascii Bool ZArith.
 From Helm Require Import Values.Tree Chart.Paths Chart.Archive Chart.Files Chart.Save Chart.Load Gen.Limits
   Chart.Wf Chart.LoadProofs Chart.AgreeProofs Chart.RecProofs Chart.Examples15
   Chart.Ignore Chart.Utf8 Chart.Match Chart.MatchProofs Chart.IgnoreProofs
-  Chart.Wf2 Chart.Rt2Proofs Chart.Examples15b Chart.OrderProofs.
+  Chart.Wf2 Chart.Rt2Proofs Chart.Examples15b Chart.OrderProofs Common.SortUniq Chart.SaveDir Chart.DirProofs Chart.Examples15c.
 Import ListNotations.
 Local Open Scope string_scope.
 
@@ -395,3 +395,84 @@ Example C15_loadfiles_order_invariant_ex :
     map f_name (c_files c1) = ["charts/foo-1.0.0.tgz.prov"].
 Proof. exact order_example. Qed.
 Print Assumptions C15_loadfiles_order_invariant_ex.
+
+(* ---------- round trip through a directory (load_dir (save_dir c), both in the model) ---------- *)
+(* SaveDir (Chart/SaveDir.v) writes Chart.yaml (without dependencies for v1), Chart.lock (v2),
+   values.yaml, values.schema.json, the templates and files, and every dependency as an archive
+   charts/<name>-<version>.tgz made by Save.  tgz / untar are tar+gzip: reading back an archive of
+   regular entries (what Save writes) yields those entries, and an archive does not begin with a BOM.
+   For every wf2_tree chart (as in C15_save_load_roundtrip) without BOMs whose written paths do not
+   collide (fresh_all: pairwise different, none a directory prefix of another, no NUL; in particular
+   at most one values.yaml document) and whose dependency versions contain no '/' and whose dependency
+   archives fit the limits: SaveDir succeeds, and for EVERY order in which the directory walk may
+   present the written files (any permutation), every ignore predicate that excludes none of them,
+   file sizes within the per-file limit and enough nesting fuel, LoadDir yields a chart with the same
+   metadata (dependencies of a v1 chart merged back from requirements.yaml), lock, raw and parsed
+   values and schema; the templates and the files are exactly the written ones, byte for byte, in the
+   order of the walk (a permutation of the original lists); the dependencies are the original
+   dependency trees (each with its own dependencies in name order), in the order of their archive
+   FILE names -- which is not always the order of their names: foo+x-0.1.0.tgz < foo-0.1.0.tgz. *)
+Theorem C15_savedir_load_roundtrip :
+  forall (md_enc : meta -> string) (lock_enc : lockv -> string) (json_valid : string -> bool)
+         (sanitize : meta -> meta) (is_semver : string -> bool) (rest_valid : meta -> bool)
+         (md_merge : meta -> string -> option meta) (lock_dec : string -> option (option lockv))
+         (parse_values : string -> option val) (untar : string -> tstream) (tgz : list tentry -> string)
+         (maxt maxf : Z),
+  (forall m, validate sanitize is_semver rest_valid m = Some m -> md_merge empty_meta (md_enc m) = Some m) ->
+  (forall m, has_bom (md_enc m) = false) ->
+  (forall l, lock_dec (lock_enc l) = Some (Some l)) ->
+  (forall l, has_bom (lock_enc l) = false) ->
+  (forall l : list (string * string),
+     untar (tgz (map (fun p => tar_entry (fst p) (snd p)) l)) = mkTS false (map (fun p => tar_entry (fst p) (snd p)) l) false) ->
+  (forall es, has_bom (tgz es) = false) ->
+  forall c : chart,
+  wf2_tree md_merge lock_dec parse_values json_valid sanitize is_semver rest_valid c -> nobom_tree c ->
+  contains_char nul (dname c) = false ->
+  fresh_all [] (map f_name (dir_tree md_enc lock_enc tgz c)) = true ->
+  Forall (fun d => contains_char slash (m_version (c_meta d)) = false /\
+                   fits maxt maxf (tree_entries (md_enc2 md_enc) lock_enc d)) (c_deps c) ->
+  exists tree, save_dir md_enc lock_enc json_valid sanitize is_semver rest_valid tgz c = Some tree /\
+    forall (ign : string -> bool -> bool) (fuel : nat) (walk : list file),
+      Permutation.Permutation walk tree ->
+      Forall (fun f => eff_ignored ign (f_name f) = false /\ (slen (f_data f) <= maxf)%Z) tree ->
+      (depth c <= fuel)%nat ->
+      exists c', load_dir_walk md_merge lock_dec parse_values untar sanitize is_semver rest_valid maxt maxf ign fuel walk = inr c' /\
+        c_meta c' = c_meta c /\ c_lock c' = c_lock c /\ raw_values c' = raw_values c /\
+        c_values c' = c_values c /\ c_schema c' = c_schema c /\
+        c_templates c' = filter (is_cls KTpl) walk /\ Permutation.Permutation (c_templates c') (c_templates c) /\
+        c_files c' = filter is_filecls walk /\ Permutation.Permutation (c_files c') (c_files c) /\
+        Forall2 same_tree (map norm (ssort (fname_leb) (c_deps c))) (c_deps c').
+Proof. exact savedir_load_roundtrip. Qed.
+Print Assumptions C15_savedir_load_roundtrip.
+
+(* the codec of C15_save_load_roundtrip_ex with a toy tar+gzip (length-prefixed names and bodies) meets
+   the hypotheses; the v1 chart "legacy" (requirements.yaml, requirements.lock, a provenance file in
+   charts/, dependencies dep-b, dep-a) is saved as a directory of nine files; the rules of a directory
+   without .helmignore (the built-in templates/.?* only, with filepath.Match as a function) exclude
+   none of them; loaded from the walk in name order -- another order than the one written -- the chart
+   has its metadata, lock and values back, its files in walk order, and the dependencies dep-a, dep-b *)
+Example C15_savedir_load_roundtrip_ex :
+  ((forall m, validate sanK semverK restU m = Some m -> mergeU empty_meta (encU m) = Some m) /\
+   (forall m, has_bom (encU m) = false) /\
+   (forall l, lock_decK (lock_encK l) = Some (Some l)) /\
+   (forall l, has_bom (lock_encK l) = false)) /\
+  ((forall l : list (string * string),
+      untarU (tgzU (map (fun p => tar_entry (fst p) (snd p)) l)) = mkTS false (map (fun p => tar_entry (fst p) (snd p)) l) false) /\
+   (forall es, has_bom (tgzU es) = false)) /\
+  (wf2_tree mergeU lock_decK parseK jsonK sanK semverK restU c_v1 /\ nobom_tree c_v1 /\ depth c_v1 = 2%nat /\
+   map dname (c_deps c_v1) = ["dep-b"; "dep-a"] /\ map dname (c_deps (norm c_v1)) = ["dep-a"; "dep-b"]) /\
+  (contains_char nul (dname c_v1) = false /\
+   fresh_all [] (map f_name (dir_tree encU lock_encK tgzU c_v1)) = true /\
+   Forall (fun d => contains_char slash (m_version (c_meta d)) = false /\ fits 10000 1000 (tree_entries (md_enc2 encU) lock_encK d)) (c_deps c_v1)) /\
+  parse_ignore gmatch_err None = Some rules0 /\
+  exists tree, save_dir encU lock_encK jsonK sanK semverK restU tgzU c_v1 = Some tree /\
+    map f_name tree = ["Chart.yaml"; "values.yaml"; "templates/d.yaml"; "requirements.yaml"; "README.md"; "requirements.lock";
+                       "charts/dep-a-0.1.0.tgz.prov"; "charts/dep-b-0.1.0.tgz"; "charts/dep-a-0.1.0.tgz"] /\
+    Permutation.Permutation (walk_sort tree) tree /\ walk_sort tree <> tree /\
+    Forall (fun f => eff_ignored ign0 (f_name f) = false /\ (slen (f_data f) <= 1000)%Z) tree /\
+    exists c', load_dir_walk mergeU lock_decK parseK untarU sanK semverK restU 10000 1000 ign0 2 (walk_sort tree) = inr c' /\
+      c_meta c' = c_meta c_v1 /\ c_lock c' = Some "digest" /\ c_values c' = c_values c_v1 /\
+      map f_name (c_files c') = ["README.md"; "charts/dep-a-0.1.0.tgz.prov"; "requirements.lock"; "requirements.yaml"] /\
+      map dname (c_deps c') = ["dep-a"; "dep-b"].
+Proof. exact savedir_example. Qed.
+Print Assumptions C15_savedir_load_roundtrip_ex.
